@@ -375,19 +375,20 @@ func (s *Store) lookupSecretInternal(ctx context.Context, name string) (Secret, 
 	// Note that the winner of the race on the singleflight may time out early,
 	// in which case we want to retry (up to a safety limit) when we discover
 	// the result was due to a context cancellation other than our own.
+	//
+	// If the caller's context doesn't already have a deadline, impose a safety
+	// fallback so requests do not stall forever if the infrastructure is
+	// farkakte. The fallback belongs to this caller and covers its retries too:
+	// were it applied only to the winner's request, a caller without a deadline
+	// would see every expiry as "not us" and retry without end.
+	if _, ok := ctx.Deadline(); !ok {
+		var cancel context.CancelFunc
+		ctx, cancel = context.WithTimeout(ctx, 5*time.Minute)
+		defer cancel()
+	}
 	for {
 		v, err, _ := s.single.Do("lookup:"+name, func() (any, error) {
-			// If the winning caller's context doesn't already have a deadline,
-			// impose a safety fallback so requests do not stall forever if the
-			// infrastructure is farkakte.
-			dctx := ctx
-			if _, ok := ctx.Deadline(); !ok {
-				var cancel context.CancelFunc
-				dctx, cancel = context.WithTimeout(ctx, 5*time.Minute)
-				defer cancel()
-			}
-
-			sv, err := s.client.Get(dctx, name)
+			sv, err := s.client.Get(ctx, name)
 			if err != nil {
 				return nil, fmt.Errorf("lookup %q: %w", name, err)
 			}
